@@ -135,6 +135,12 @@ func (g *G) expr(d int) string {
 		for i := 0; i < k; i++ {
 			v := g.fresh("v")
 			rhs := g.expr(d - 1)
+			if len(g.loops) > 0 && g.r.Intn(3) == 0 {
+				// a break/continue reached while the bindings are still being computed
+				g.tag("break-in-let-init")
+				kw := []string{"break", "continue"}[g.r.Intn(2)]
+				rhs = "(cond " + g.pred(d-1) + " (" + kw + ") " + rhs + ")"
+			}
 			if kind == "letseq" {
 				g.vars = append(g.vars, v)
 			}
